@@ -78,6 +78,9 @@ pub struct Lexicon {
     pub dropped_fillers: Vec<String>,
     pub linking: Vec<String>,
     pub number_words: Vec<String>,
+    /// the part of `number_words` that comes from the spellers alone (no extra material): an independent list of words
+    /// that ARE number words, whatever the running library answers
+    pub speller_words: Vec<String>,
     pub ordinal_words: Vec<String>,
     pub conj: &'static str,
     pub sep: &'static str,
@@ -151,6 +154,7 @@ impl Lexicon {
                 }
             }
         }
+        let mut speller_words: Vec<String> = nums.iter().filter(|w| *w != info.conj && !w.is_empty()).cloned().collect();
         for w in extra_number_words(code) {
             nums.insert(w.to_string());
         }
@@ -173,6 +177,10 @@ impl Lexicon {
             dropped_fillers: dropped,
             linking: raw_linking(code).iter().map(|s| s.to_string()).collect(),
             number_words: nums.into_iter().collect(),
+            speller_words: {
+                speller_words.sort();
+                speller_words
+            },
             ordinal_words: ords.into_iter().collect(),
             conj: info.conj,
             sep: info.sep,
